@@ -687,7 +687,11 @@ func init() {
 	reg("regexp.MustCompile", compile)
 	reg("regexp.Compile", func(p *Path, fn *ssa.Function, a []Value) Value { return TupleV{compile(p, fn, a), IfaceV{}} })
 	reg("(*regexp.Regexp).MatchString", func(p *Path, fn *ssa.Function, a []Value) Value {
-		re := a[0].(PtrV).load().(OpaqueV).data.(*regexp.Regexp)
+		ov, _ := a[0].(PtrV).load().(OpaqueV)
+		re, isRe := ov.data.(*regexp.Regexp)
+		if !isRe {
+			p.unsup("regexp object of an opaque package without a known pattern")
+		}
 		s, ok := strConcrete(a[1].(StrV))
 		if !ok {
 			p.unsup("regexp match on a symbolic string (pattern %s)", re.String())
@@ -697,4 +701,20 @@ func init() {
 	reg("(*regexp.Regexp).String", func(p *Path, fn *ssa.Function, a []Value) Value {
 		return StrV{s: a[0].(PtrV).load().(OpaqueV).data.(*regexp.Regexp).String()}
 	})
+}
+
+func init() {
+	ident := func(p *Path, fn *ssa.Function, a []Value) Value { return a[0] }
+	reg("strings.noescape", ident)
+	reg("internal/abi.NoEscape", ident)
+	reg("bytes.noescape", ident)
+	reg("(*strings.Builder).copyCheck", func(p *Path, fn *ssa.Function, a []Value) Value { return nil })
+}
+
+func init() {
+	reg("ext:internal/bytealg.MakeNoZero", func(p *Path, fn *ssa.Function, a []Value) Value {
+		n := p.concreteInt(a[0], "MakeNoZero n")
+		return p.makeSlice(types.Typ[types.Uint8], n, n)
+	})
+	reg("unsafe.String", func(p *Path, fn *ssa.Function, a []Value) Value { p.unsup("unsafe.String"); return nil })
 }
